@@ -52,7 +52,7 @@ LEVEL_TEXT = ("Partial proof. Theorems on the regenerated programs: well-formedn
               "with 2^(emin+p) <= max(|x|,|y|) <= Lmax/2 the run exists, no node overflows, the output is finite and within 3.51 u of sqrt(x^2+y^2). "
               "The 4/5-ULP bounds, the 1e-5 rate, the NaN domain and the limits of asin/acos/asinh/acosh/hypot are decided by search: float32 exhaustively in the thorough "
               "tier (all non-NaN patterns), strided + boundary-targeted in quick; float64 and hypot sampled against an mpmath Ziv reference.")
-LEVEL_NOTE = "ULP bounds of the libm-based functions: search only (exhaustive for float32 in thorough); hypot: theorem over Q with an abstract correctly-rounded sqrt (normal range, absent overflow) + search."
+LEVEL_NOTE = "ULP bounds of the libm-based functions: search only (exhaustive for float32 in thorough); hypot: theorem over Q with an abstract correctly-rounded sqrt (normal range, absent overflow), on bit patterns with no assumption about the run (hypot_total_f32/f64), and its limit clause for EVERY input (hypot(x, +-inf) = +inf for every non-NaN x, hypot(x, +-0) has exactly the value |x| for every finite x: Props/C02HypotLimits.lean, C02HypotZero.lean) + search."
 TECHNIQUE = "translator-regenerated Lean programs + kernel-checked exactness of square/absolute + exhaustive float32 sweep (thorough) / mpmath search"
 
 UNARY = algs.REAL
